@@ -70,6 +70,8 @@ def rule_verdict_shape(ctx, rid="R4.2"):
     calls = calls_of(prog)
     V = calls.V
     r = ctx.rule(rid, "is_valid = `no first error`; validate() raises the first error; jsonschema.validate raises best_match iff not None", floor=3)
+    from .c02 import _valsem
+    sem = _valsem(ctx, "entry_points_eval")
     # is_valid
     f = V.methods["is_valid"]
     cfg = cfg_of(f)
@@ -92,10 +94,12 @@ def rule_verdict_shape(ctx, rid="R4.2"):
                 ok = len(defs) == 1 and isinstance(defs[0].ast, ast.Assign) and is_next_none(defs[0].ast.value)
         elif isinstance(v, ast.UnaryOp) and isinstance(v.op, ast.Not) and isinstance(v.operand, ast.Call) and norm(v.operand.func) == "any":
             ok = True
+    if sem is not None:
+        ok = sem["is_valid"] is None
     if ok:
-        r.ok(site(f), "returns (next(iter_errors(...), None) is None)")
+        r.ok(site(f), "returns (next(iter_errors(...), None) is None)" if sem is None else "True exactly when iter_errors yields nothing (six schemas evaluated)")
     else:
-        r.fail("%s|verdict" % f.qual, site(f), "is_valid is not `the error iterator has no first element`: %s" % [norm(x.ast.value) for x in rets])
+        r.fail("%s|verdict" % f.qual, site(f), (sem or {}).get("is_valid") or "is_valid is not `the error iterator has no first element`: %s" % [norm(x.ast.value) for x in rets])
     # validate (method): for error in iter_errors(...): raise error
     f = V.methods["validate"]
     cfg = cfg_of(f)
@@ -135,10 +139,12 @@ def rule_verdict_shape(ctx, rid="R4.2"):
                         sd = [cfg.nodes[d] for d in rd[defs[0].id].get(src.id, ())]
                         src = sd[0].ast.value if len(sd) == 1 and isinstance(sd[0].ast, ast.Assign) else None
                     ok = isinstance(src, ast.Call) and norm(src.func).endswith("iter_errors")
+    if sem is not None:
+        ok = sem["validate"] is None
     if ok:
-        r.ok(site(f), "raises the loop variable in the first iteration, unconditionally; nothing otherwise")
+        r.ok(site(f), "raises the first error iter_errors yields (the very object), nothing otherwise")
     else:
-        r.fail("%s|raise-first" % f.qual, site(f), "validate() does not raise exactly the first error iter_errors yields")
+        r.fail("%s|raise-first" % f.qual, site(f), (sem or {}).get("validate") or "validate() does not raise exactly the first error iter_errors yields")
     # module validate
     f = prog.func("validators.validate")
     cfg = cfg_of(f)
@@ -176,6 +182,15 @@ def rule_schema_first(ctx, rid="R4.3"):
     f = prog.func("validators.validate")
     cfg = cfg_of(f)
     r = ctx.rule(rid, "in jsonschema.validate, check_schema(schema) precedes construction of the validator and any use of the instance", floor=2)
+    from .c02 import _valsem
+    sem = _valsem(ctx, "selection_eval")
+    if sem is not None:
+        if sem["validate"] is None:
+            r.ok(site(f), "check_schema, then construction, then iter_errors -- on one class, schema and instance handed on unchanged (recorded by stub classes)")
+            r.ok(site(f) + " [best_match]", "what is raised is best_match of the errors; nothing for none")
+        else:
+            r.fail("%s|before-check_schema|semantic" % f.qual, site(f), sem["validate"])
+        return r
     cs = [(n, c) for n in cfg.live for (c, tg) in calls_at(calls, f, n) if isinstance(c.func, ast.Attribute) and c.func.attr == "check_schema"]
     if len(cs) != 1:
         r.fail("%s|check_schema-calls:%d" % (f.qual, len(cs)), site(f), "expected one check_schema call")
